@@ -19,7 +19,7 @@ let push (acc : positive option) (b : bool) : positive option =
   | None -> if b then Some XH else None
   | Some p -> Some (if b then XI p else XO p)
 
-let z_of_hex_raw (s : string) : z =
+let z_of_hex_raw (s : Stdlib.String.t) : z =
   let acc = ref None in
   String.iter (fun c ->
       let v = hexval c in
@@ -27,7 +27,7 @@ let z_of_hex_raw (s : string) : z =
   match !acc with None -> Z0 | Some p -> Zpos p
 
 (* input validation as in the C harness: at most [n] hex digits *)
-let hx (n : int) (s : string) : z =
+let hx (n : int) (s : Stdlib.String.t) : z =
   if String.length s > n then raise Exit else z_of_hex_raw s
 
 (* bits of a positive, least significant first *)
@@ -37,7 +37,7 @@ let rec bits_of_pos (p : positive) : bool list =
   | XO q -> false :: bits_of_pos q
   | XI q -> true :: bits_of_pos q
 
-let hex_of_z (width : int) (v : z) : string =
+let hex_of_z (width : int) (v : z) : Stdlib.String.t =
   let bits = match v with Z0 -> [] | Zpos p -> bits_of_pos p | Zneg _ -> raise Exit in
   let a = Array.make (max width ((List.length bits + 3) / 4)) 0 in
   List.iteri (fun i b -> if b then a.(i / 4) <- a.(i / 4) lor (1 lsl (i mod 4))) bits;
@@ -56,20 +56,31 @@ let int_of_z (v : z) : int =
 
 let dec s = z_of_int (int_of_string s)
 
+(* Coq string (list of 8-bit ascii, least significant bit first) -> OCaml string *)
+let char_of_ascii (a : ascii) : char =
+  match a with
+  | Ascii (b0, b1, b2, b3, b4, b5, b6, b7) ->
+      let bit b k = if b then 1 lsl k else 0 in
+      Char.chr (bit b0 0 lor bit b1 1 lor bit b2 2 lor bit b3 3 lor bit b4 4 lor bit b5 5 lor bit b6 6 lor bit b7 7)
+let rec ostring_of (s : string) : Stdlib.String.t =
+  match s with
+  | EmptyString -> ""
+  | String (a, t) -> Stdlib.String.make 1 (char_of_ascii a) ^ ostring_of t
+
 (* the C harness rejects nb outside 1..16, negative shift counts, and (for the
    out-of-place shape) shift counts >= CHAR_BIT: the C code asserts / is not used there *)
-let hxnb (nb : string) (h : string) : z =
+let hxnb (nb : Stdlib.String.t) (h : Stdlib.String.t) : z =
   let n = int_of_string nb in
   if n < 1 || n > 16 then raise Exit else hx (2 * n) h
-let nonneg (s : string) : z = let n = int_of_string s in if n < 0 then raise Exit else z_of_int n
-let nonneg7 (s : string) : z = let n = int_of_string s in if n < 0 || n > 7 then raise Exit else z_of_int n
+let nonneg (s : Stdlib.String.t) : z = let n = int_of_string s in if n < 0 then raise Exit else z_of_int n
+let nonneg7 (s : Stdlib.String.t) : z = let n = int_of_string s in if n < 0 || n > 7 then raise Exit else z_of_int n
 let sdec v = string_of_int (int_of_z v)
 let b01 b = if b then "1" else "0"
 
 (* C's atoi(tok) != 0 for a Bool argument *)
 let boolarg s = int_of_string s <> 0
 
-let run (tok : string list) : string =
+let run (tok : Stdlib.String.t list) : Stdlib.String.t =
   match tok with
   | ["srt"; h] ->
       let x = xsfFrNative (hx 8 h) in
@@ -111,6 +122,12 @@ let run (tok : string list) : string =
       let ((s, e), w) = fiSFloDissemble (hx 16 j) (hx 8 h) in hex_of_z 8 (fiSFloAssemble s e w)
   | ["fdr"; h] ->
       let (((s, e), w0), w1) = fiDFloDissemble Z0 (hx 16 h) in hex_of_z 16 (fiDFloAssemble s e w0 w1)
+  | ["dsp"; rep; h] ->
+      (* DFloatSprint's decision: T <fixed text> or P <printf format> <precision> *)
+      let m = if int_of_string rep <> 0 then sprint_floatrep0 else sprint_default0 in
+      (match dfloatSprint m (hx 16 h) with
+       | SText t -> "T " ^ ostring_of t
+       | SPrintf (f, p, _) -> "P " ^ ostring_of f ^ " " ^ sdec p)
   | ["shu"; nb; h; nsh] -> hex_of_z (2 * int_of_string nb) (bfShiftUp (dec nb) (hxnb nb h) (nonneg nsh))
   | ["shd"; nb; h; nsh; b1] ->
       hex_of_z (2 * int_of_string nb) (bfShiftDn (dec nb) (hxnb nb h) (nonneg nsh) (boolarg b1))
